@@ -193,7 +193,7 @@ func genScore(t *rapid.T, label string) eval.Score {
 
 // TestC09_mixed draws triples mixing heuristic values over float32 with discrete scores.
 func TestC09_mixed(t *testing.T) {
-	runRapid(t, "C09/order", 60000, func(t *rapid.T) c09Case {
+	runRapid(t, "C09/order", 400000, func(t *rapid.T) c09Case {
 		return c09Case{toScoreJ(genScore(t, "a")), toScoreJ(genScore(t, "b")), toScoreJ(genScore(t, "c"))}
 	}, func(c c09Case) error {
 		a, b := c.A.score(), c.B.score()
